@@ -1,3 +1,3 @@
 From Coq Require Import Extraction ExtrOcamlBasic.
-From Oxia.Client Require Import Model Inst WriteModel.
-Extraction "client_model.ml" run_trace init_state scripted_exec stream_run merge_slash list_union list_run multi_get_slash write_path.
+From Oxia.Client Require Import Model Inst WriteModel ShutdownModel.
+Extraction "client_model.ml" run_trace init_state scripted_exec stream_run merge_slash list_union list_run multi_get_slash write_path sd_run sd_init.
